@@ -88,13 +88,13 @@ Judge(r) ==
                   /\ Flag(C06_FailInert(e), "C06", "FailInert", r, t)
                   /\ Flag(C06_Publish(e, A), "C06", "Publish", r, t)
                   /\ Flag(C06_Fanout(e), "C06", "Fanout", r, t)
-                  /\ Flag(C06_Announced(e), "C06", "Announced", r, t)
+                  /\ Flag(C06_Announced(e), "DRIFT", "C06_Announced", r, t)  \* the statement of C06 does not speak of notifications
                   /\ Flag(C06_Subscribe(e), "C06", "Subscribe", r, t)
       /\ Flag(C07_Machine(e), "C07", "Machine", r, t)
       /\ Flag(C07_Rejects(e), "C07", "Rejects", r, t)
       /\ Flag(C07_Witness(e), "C07", "Witness", r, t)
       /\ Flag(C07_Api(A), "C07", "Api", r, t)
-      /\ Flag(C07_Announced(e), "C07", "Announced", r, t)
+      /\ Flag(C07_Announced(e), "DRIFT", "C07_Announced", r, t)  \* the statement of C07 does not speak of notifications
       /\ Flag(r.obs.strayCand = <<>>, "C07", "NoStrayCandidate", r, t)
       /\ okC08' => /\ Flag(C08_Recent(A, epoch', pub', rt'), "C08", "Recent", r, t)
                    /\ Flag(C08_Older(A, epoch', rt'), "C08", "Older", r, t)
